@@ -26,7 +26,8 @@ L_USES = """
 """
 
 
-def build(vacuity=False):
+def build(vacuity=False, u11=None):
+    """u11: None for U9 itself; for U11 a callback(u, ex, items-phase) object that adds the accept loop and start()."""
     vxlib.reset_vac()
     C = vxlib.load_contracts(os.path.join(HERE, "contracts.toml"))
     fnc = {k: vxlib.FnContract(k, v) for k, v in C.get("fn", {}).items()}
@@ -44,7 +45,7 @@ def build(vacuity=False):
     ] + list(d3["requires"])
     listen_c = vxlib.FnContract("connection.listen", d3)
 
-    u, fnc2 = common.start_unit(NAME, vacuity)
+    u, fnc2 = common.start_unit(NAME if u11 is None else u11.NAME, vacuity)
     u.default_props = ["C04"]
     items = common.base_items()
     for f in CONN_CALLEES + ["listen"]:
@@ -55,6 +56,8 @@ def build(vacuity=False):
     for f in ["new", "handle"] + BUILDERS:
         items.append({"key": f"listener.{f}", "file": PL, "kind": "impl_fn", "self_ty": "Listener<Stat,Disc,Filt,Stra,Auth,Loca>", "name": f,
                       "rules": L_RULES, "subst": L_SUBST, "anchors": vxlib.anchors_for(fnc[f"listener.{f}"], vacuity)})
+    if u11 is not None:
+        items += u11.items(vacuity)
     ex = vxlib.run_vx(items)
     common.emit_base(u, ex, fnc2)
     with open(os.path.join(HERE, "..", "U3", "spec.rs")) as f:
@@ -85,8 +88,16 @@ def build(vacuity=False):
     u.raw("    impl Listener {\n")
     for f in ["new", "handle"] + BUILDERS:
         ex[f"listener.{f}"]["vis"] = ""  # contracts mention the private fields; nothing outside this module calls these
-        u.add_fn(ex[f"listener.{f}"], fnc[f"listener.{f}"], vacuity=vacuity, indent="        ")
-    u.raw("    }\n}\n} // verus!\nfn main() {}\n")
-    u.modules = ["listener"]
-    u.verify_only = ["listener"]
+        if u11 is None:
+            u.add_fn(ex[f"listener.{f}"], fnc[f"listener.{f}"], vacuity=vacuity, indent="        ")
+        else:
+            u.add_fn(ex[f"listener.{f}"], fnc[f"listener.{f}"], mode="external", indent="        ")
+    if u11 is not None:
+        u11.emit_impl(u, ex, vacuity)
+    u.raw("    }\n")
+    if u11 is not None:
+        u11.emit_app(u, ex, vacuity)
+    u.raw("}\n} // verus!\nfn main() {}\n")
+    u.modules = ["listener"] if u11 is None else ["listener", "listener::app"]
+    u.verify_only = list(u.modules)
     return u
